@@ -49,6 +49,8 @@ def groups(n, seed):
             # several equality rows, with and without right-hand side, in both orders, mixed with one-sided rows
             kw["row_kinds"] = [["eq", "eq0"], ["eq0", "eq"], ["eq", "lower", "eq0"], ["upper", "eq", "eq0"], ["eq", "eq", "eq0"]][(i // 5) % 5]
             mm = len(kw["row_kinds"])
+        if i % 7 == 3 and mm > 0:
+            kw["row_scale"] = [0.3, 0.1, 0.05][(i // 7) % 3]        # rows with small coefficients (data O(0.1), same conditioning)
         if not wellposed(s, nn, mm, {k: v for k, v in kw.items() if k != "quad_rows"}):
             rejected += 1
             continue
